@@ -191,6 +191,7 @@ impl Monitor for C13 {
             "burns_reopening_room",
             "instantiate_without_minter",
             "instantiate_cap_equals_supply",
+            "migrations_run",
         ]
     }
     fn rule(&self) -> &'static str {
@@ -239,7 +240,28 @@ impl Monitor for C13 {
             return;
         }
         let n = h.tier.pick(60, 100);
-        for _ in 0..n {
+        let migrate_at = if h.idx % 4 == 3 { h.rng.range(0, 40) as usize } else { usize::MAX };
+        for i in 0..n {
+            if i == migrate_at {
+                // upgrade path: the token was deployed by an older release and is migrated now
+                let v = *h.rng.pick(&["0.13.4", "0.10.3", "0.13.0", "1.1.2", "2.0.0"]);
+                cw2::set_contract_version(&mut c.w.store, "crates.io:cw20-base", v).unwrap();
+                let r = c.w.tx(|deps, env| cw20_base::contract::migrate(deps, env, cw20_base::msg::MigrateMsg {}));
+                h.out.evaluations += 1;
+                h.note(format!("migrate from {v} => {}", r.class()));
+                if r.is_ok() {
+                    h.out.count("migrations_run");
+                }
+                let post = c.snap(false);
+                let want = m.minter.clone().map(|a| (a, m.cap));
+                if !h.check(post.minter == want && post.supply == pre.supply, "C13/migrate/minter-cap-or-supply-changed-by-migration", || {
+                    format!("migrate from {v}: minter/cap {:?} -> {:?}, supply {} -> {}", want, post.minter, pre.supply, post.supply)
+                }) {
+                    return;
+                }
+                pre = post;
+                continue;
+            }
             let (sender, op) = gen_op(&mut h.rng, &c, &pre, &MIX_MINTER);
             // former minters retry often
             let sender = if !m.former.is_empty() && h.rng.chance(1, 5) {
